@@ -89,9 +89,38 @@ def _writes(P, b, T, cfg, blocks=None):
     return _dom_sorted(cfg, out)
 
 
+REORDERERS = ("sort", "sort_unstable", "sort_by", "sort_by_key", "sort_unstable_by", "sort_unstable_by_key", "sort_by_cached_key", "reverse",
+              "dedup", "dedup_by", "dedup_by_key", "retain", "retain_mut", "truncate", "swap", "rotate_left", "rotate_right", "pop", "remove",
+              "swap_remove", "drain", "clear", "split_off", "rev", "sorted", "unique")
+
+
+def _r11_lists_as_configured(ctx):
+    """R11 what is advertised as a list (recursive DNS servers, search domains, prefixes) is the configured list, element for element
+    and in order: the function that builds the advertisement neither sorts, reverses, de-duplicates nor shortens a list, nor collects
+    one through a set. Hosts try RDNSS addresses in the order given."""
+    P = ctx.P
+    roots = [f for f in P.bodies if f.endswith("radv::RaAdvService::build_announcement_pure")]
+    if ctx.config in ("default", "radv"):
+        ctx.floor("R11", "advertisement builder", len(roots), 1)
+    for r in roots:
+        bad = []
+        for x in P.family(r):
+            ctx.saw(x)
+            for bb, tm in x.calls():
+                nme = callee_name(tm) or ""
+                last = nme.rsplit("::", 1)[-1]
+                if last in REORDERERS and ("Vec" in nme or "vec::" in nme or "slice" in nme or "Iterator" in nme or "itertools" in nme.lower()):
+                    bad.append("%s at %s" % (last, P.rel(tm["sp"])))
+                if last == "collect" and any(("BTreeSet" in str(g) or "HashSet" in str(g)) for g in (tm["callee"].get("gargs") or [])):
+                    bad.append("collect into a set at %s" % P.rel(tm["sp"]))
+        ctx.check(not bad, "R11", "advertised-lists-are-the-configured-lists-in-order", ctx.where(P.bodies[r]),
+                  "the advertisement builder reorders or shortens a list: %s" % (bad or "-"))
+
+
 def run(ctx):
     P = ctx.P
     _r1(ctx)
+    _r11_lists_as_configured(ctx)
     enc = [f for f in P.bodies if f.endswith("radv::icmppkt::serialise_router_advertisement")]
     ctx.floor("R3", "RA encoder", len(enc), 1)
     if enc:
